@@ -84,19 +84,29 @@ Theorem C06_ms_sufficiency : forall n (A : list R -> list R) (b p : list R) lam 
   forall s, len n s -> s ⋅ s <= Delta * Delta -> energyR A b p <= energyR A b s.
 Proof. exact ms_sufficiency_full. Qed.
 
-(* treigen.solve, hard case AS WRITTEN (z = v[0] is a row of the eigenvector matrix): for the orthogonal, non-symmetric
-   eigenbasis wV of wA (eigenvalues -1, 1), b orthogonal to the lowest eigenvector and Delta = 2 the model takes the hard-case
-   branch and returns a point whose model value exceeds that of the feasible point ws by more than 1.  (finding F2) *)
-Theorem C06_treigen_hard_case_refuted : forall fuel,
-  fst (@treigen_solve R NumR fuel wsig wV wb 2) = THard /\
-  ws ⋅ ws <= 2 * 2 /\
-  @tr_energy R NumR wA wb ws + 1 < @tr_energy R NumR wA wb (snd (@treigen_solve R NumR fuel wsig wV wb 2)).
-Proof. exact treigen_hard_case_refuted_R. Qed.
-Theorem C06_treigen_witness_is_eigendecomposition :
-  @matvec R NumR wA [3/5; 4/5] = rscale (-1) [3/5; 4/5] /\ @matvec R NumR wA [-4/5; 3/5] = rscale 1 [-4/5; 3/5] /\
-  [3/5; 4/5] ⋅ [3/5; 4/5] = 1 /\ [-4/5; 3/5] ⋅ [-4/5; 3/5] = 1 /\ [3/5; 4/5] ⋅ [-4/5; 3/5] = 0 /\
-  wb ⋅ [3/5; 4/5] = 0.
-Proof. exact witness_is_eigendecomposition. Qed.
+(* treigen.solve, hard case (as repaired by repo commit 5a997d7: z = v[:,0], sign +1 at p.z = 0): for a unit vector z and
+   |p| < Delta the completed step p + tau z lies on the boundary *)
+Theorem C06_treigen_hard_case_on_boundary : forall n (p z : list R) Delta, len n p -> len n z -> z ⋅ z = 1 ->
+  p ⋅ p < Delta * Delta ->
+  let x := @hard_case_step R NumR p z Delta in len n x /\ x ⋅ x = Delta * Delta.
+Proof. exact hard_case_on_boundary. Qed.
+(* ... and it minimises the model over the ball up to 2|tau| eps Delta when p solves the shifted system (A + lam I) p = -b,
+   A + lam I >= 0, lam >= 0 and z is a unit eigenvector with (A + lam I) z = eps z, eps >= 0 (the code shifts the lowest
+   eigenvalue by eps = 1e-12*mean|sig|; with eps = 0 this is exact global optimality in the hard case).
+   The eigen-decomposition facts are hypotheses here (numpy eigh is an oracle). *)
+Theorem C06_treigen_hard_case_near_optimal : forall n (A : list R -> list R) (b p z : list R) lam eps tau Delta,
+  (forall v, len n v -> len n (A v)) ->
+  (forall a k c, len n a -> len n c -> A (raxpy a k c) = raxpy (A a) k (A c)) ->
+  (forall a c, len n a -> len n c -> a ⋅ A c = A a ⋅ c) ->
+  len n b -> len n p -> len n z -> 0 <= lam -> 0 <= eps -> 0 <= Delta ->
+  (forall w, len n w -> A p ⋅ w + lam * (p ⋅ w) = - (b ⋅ w)) ->
+  (forall v, len n v -> 0 <= v ⋅ A v + lam * (v ⋅ v)) ->
+  z ⋅ z = 1 ->
+  (forall w, len n w -> A z ⋅ w + lam * (z ⋅ w) = eps * (z ⋅ w)) ->
+  raxpy p tau z ⋅ raxpy p tau z = Delta * Delta ->
+  forall s, len n s -> s ⋅ s <= Delta * Delta ->
+  energyR A b (raxpy p tau z) <= energyR A b s + 2 * Rabs tau * eps * Delta.
+Proof. exact hard_case_near_optimal_full. Qed.
 (* zero model Hessian: the secular branch of the binary64 model divides by sig+lam = 0 and returns NaN (finding F2b);
    fencs encodes NaN as [0; 7777] *)
 Theorem C06_treigen_zero_hessian_nan_binary64 :
@@ -108,10 +118,11 @@ Proof. exact treigen_zero_hessian_nan_binary64. Qed.
 Theorem C06_treigen_secular_stalls_binary64 :
   fst (@treigen_solve PrimFloat.float NumF 400 stall_sig [[F 1 0; F 0 0]; [F 0 0; F 1 0]] stall_b stall_Delta) = TOutOfFuel.
 Proof. exact treigen_secular_stalls_binary64. Qed.
-(* NOT PROVED: "treigen.solve returns a global minimiser" -- false as written (above); for the interior and secular
-   branches the reduction to C06_ms_sufficiency under an `eigh` contract (orthonormal columns, A = V diag(sig) V^T) needs
-   matrix algebra over lists that did not fit the budget; those branches are checked per instance by the harness
-   (optimality gap against an independent reference and the radius), which is a test, not a proof. *)
+(* NOT PROVED: "treigen.solve returns a global minimiser" as one theorem about the model: the two theorems above and
+   C06_ms_sufficiency state what each branch must deliver in terms of an abstract symmetric operator A; deriving their
+   hypotheses from the `eigh` contract (orthonormal columns, A = V diag(sig) V^T) for the list-of-rows model needs matrix
+   algebra over lists that did not fit the budget.  The branches are checked per instance by the harness (optimality gap
+   against an independent reference and the radius), which is a test, not a proof.  Two defects remain open (F2b, F2c). *)
 
 Example C06_nonvacuous : forall n,
   let Hf := rscale 2 in let Pf := fun v : list R => v in
@@ -125,4 +136,4 @@ Print Assumptions C06_tau_on_boundary.
 Print Assumptions C06_cg_step_properties.
 Print Assumptions C06_dogleg.
 Print Assumptions C06_ms_sufficiency.
-Print Assumptions C06_treigen_hard_case_refuted.
+Print Assumptions C06_treigen_hard_case_near_optimal.
